@@ -9,7 +9,12 @@ RULE = ("the real bmc()/pdr() on small transition systems (2 hand-written + sysg
         "truncated variants, messages with quotes / non-ASCII / '(' inside, unknown-then-open-text) at every point (thorough) or at one point per "
         "point kind (quick).  Each run is one worker process under a progress watchdog (CPU burnt after the solver is gone = spinning; no reply "
         "and no CPU anywhere = blocked).  distinct = distinct (system, engine, point, fault, observed bytes, outcome) lines; every case is "
-        "non-trivial: the implementation ran and the extracted model was run on the bytes the client could read")
+        "non-trivial: the implementation ran and the extracted model was run on the bytes the client could read.  "
+        "PDR (both generalisation modes: with and without unsat cores) on four hand-written systems (3 unsafe, 1 safe): the byte-level kinds "
+        "unknown / error:20 / garbage:0 at EVERY response point, and CONTEXT-LEVEL faults at every point: a wrapper SolverContext around the real "
+        "context answers Ok(CheckSatResponse::Unknown) to the k-th check, resp. returns Err from the k-th response-bearing call (also for every BMC "
+        "point); oracle there: error, Unknown verdict or the verdict of the fault-free run - never the opposite verdict, never a panic; counts in "
+        "stats: pdr-full-enumeration, pdr-check-points-answered-unknown-by-the-context, ctx-fault-x-nominal-x-outcome")
 ASSUMPTIONS = [
     "Model/SolverIO.v mirrors solver.rs read_response/read_sat_response/write_cmd/Drop and bmc.rs' conversation (hand-written; tied by running "
     "the extracted model on the byte transcript of every run)",
@@ -18,6 +23,9 @@ ASSUMPTIONS = [
     "solver output is valid UTF-8 and has no non-ASCII white space at the ends of a reply (Rust's read_line/trim would differ from the byte model)",
     "process-level facts are inputs of the model (what try_wait observes, whether a write hits a closed pipe); the shim makes them deterministic "
     "(it exits BEFORE the last bytes reach the client)",
+    "context-level faults (Ok(Unknown) / Err returned by a SolverContext method) have no Coq model behind them: the real SmtLibSolverCtx never "
+    "returns Ok(Unknown) (C15_never_unknown), so pdr.rs' Unknown arms are reachable only through another SolverContext; they are checked by the "
+    "oracle alone, and a run that ends with the fault-free verdict after an Unknown answer is accepted (conservative handling is legitimate)",
     "PDR: only the faulty call is modelled (pdr.rs propagates every error with `?`); the PDR algorithm itself is not",
     "faulty runs reuse the recorded replies of the fault-free run while the command stream is byte-identical (1 in 10 runs uses a live z3 throughout)",
 ]
@@ -27,16 +35,16 @@ TRUSTED = ["harness/src/bin/solver-shim.rs (fault injection, transcript log) and
 
 def streams(tier, seed):
     if tier == "quick":
-        return [dict(tag="main", count=4, seed=seed, extra={"tier": "quick", "pdr-cap": 4, "jobs": 8})]
+        return [dict(tag="main", count=5, seed=seed, extra={"tier": "quick", "pdr-cap": 3, "full-limit": 40, "jobs": 8})]
     out = []
     # 40 systems: 24 with every fault kind at every BMC point, 16 (8 of them against cvc5) with the secondary kinds rotating
     for k in range(3):
         out.append(dict(tag="z3-%d" % k, count=8, seed=seed * 100 + k,
-                        extra={"tier": "thorough", "pdr-cap": 10, "jobs": 10, "live-every": 40, "secondary-bmc": "all", "secondary-pdr": "rotate"}))
+                        extra={"tier": "thorough", "pdr-cap": 10, "full-limit": 80, "jobs": 10, "live-every": 40, "secondary-bmc": "all", "secondary-pdr": "rotate"}))
     out.append(dict(tag="z3-3", count=8, seed=seed * 100 + 3,
-                    extra={"tier": "thorough", "pdr-cap": 10, "jobs": 10, "live-every": 40, "secondary-bmc": "rotate", "secondary-pdr": "rotate"}))
+                    extra={"tier": "thorough", "pdr-cap": 10, "full-limit": 80, "jobs": 10, "live-every": 40, "secondary-bmc": "rotate", "secondary-pdr": "rotate"}))
     out.append(dict(tag="cvc5", count=8, seed=seed * 100 + 7,
-                    extra={"tier": "thorough", "solver": "cvc5", "pdr-cap": 10, "jobs": 10, "live-every": 40, "secondary-bmc": "rotate", "secondary-pdr": "rotate"}))
+                    extra={"tier": "thorough", "solver": "cvc5", "pdr-cap": 10, "full-limit": 80, "jobs": 10, "live-every": 40, "secondary-bmc": "rotate", "secondary-pdr": "rotate"}))
     return out
 
 
